@@ -26,6 +26,16 @@ def valText (v : Val) : String := " ".intercalate (valToks v)
 
 def dropFirst (s : String) : String := String.ofList (s.toList.drop 1)
 
+/-- a hex string, or `<hex>*<n>`: the octets repeated n times (long strings in corpus files; aperval.go `unhex`) -/
+def ofHexRep? (s : String) : Option Bytes :=
+  match s.splitOn "*" with
+  | [h] => ofHex? h
+  | [h, n] =>
+    match ofHex? h, n.toNat? with
+    | some b, some k => if k ≤ 1048576 then some ((List.replicate k b).flatten) else none
+    | _, _ => none
+  | _ => none
+
 mutual
 partial def parseVal : List String → Option (Val × List String)
   | [] => none
@@ -50,13 +60,13 @@ partial def parseVal : List String → Option (Val × List String)
       match t.toList.head? with
       | some 'i' => body.toInt?.map fun n => (.int n, rest)
       | some 'e' => body.toNat?.map fun n => (.enum n, rest)
-      | some 'o' => (ofHex? body).map fun b => (.octs b, rest)
-      | some 's' => (ofHex? body).map fun b => (.str b, rest)
-      | some 'd' => (ofHex? body).map fun b => (.oid b, rest)
+      | some 'o' => (ofHexRep? body).map fun b => (.octs b, rest)
+      | some 's' => (ofHexRep? body).map fun b => (.str b, rest)
+      | some 'd' => (ofHexRep? body).map fun b => (.oid b, rest)
       | some 'b' =>
         match body.splitOn ":" with
         | [n, h] =>
-          match n.toNat?, ofHex? h with
+          match n.toNat?, ofHexRep? h with
           | some n, some b => some (.bits b n, rest)
           | _, _ => none
         | _ => none
@@ -102,11 +112,9 @@ def resVal : Res Val → String
   | .ok v => "ok " ++ valText v
   | .error e => e.tag
 
-/-- values inside the stated scope of C03: every length determinant below the fragmentation threshold -/
+/-- values inside the scope of the oracle: strings and open types of any length (fragmented per X.691 11.9.3.8 from 16K
+    items on); a SEQUENCE OF of 16384 elements or more is outside (the specification does not fragment counts) -/
 partial def inScope : Val → Bool
-  | .bits _ n => n < 16384
-  | .octs b => b.length < 16384
-  | .str b => b.length < 16384
   | .ptr v => inScope v
   | .struct fs => fs.all inScope
   | .slice l => l.length < 16384 && l.all inScope
